@@ -13,6 +13,7 @@ from ..rat import rat, frac, rat_opt, round_once_eq, tol_eq
 from ..symtrace import Sym, Untraceable
 from .. import leanio
 from .. import gen_geom
+from .. import c10_hist
 
 PROPERTY = "C10"
 LEAN_MODULE = "Proofs.C10"
@@ -151,15 +152,15 @@ def _res_str(r):
 
 
 def _mk_fn(fj, canon, res):
-    table = fj["table"]
-    default = fj["default"]
-
+    """a user function given by a finite table; the table is read at call time from `fn.spec`, so that a history can
+    keep the same callable object and change its behaviour between calls"""
     def fn(x):
         cx = canon(x)
-        for k, v in table:
+        for k, v in fn.spec["table"]:
             if k == cx:
                 return res(v)
-        return res(default)
+        return res(fn.spec["default"])
+    fn.spec = fj
     return fn
 
 
@@ -832,6 +833,10 @@ OPS = {
     "roundtrip_sequence_free": Op("roundtrip_sequence_free", _impl_roundtrip_sequence, holds=_holds_rt_sequence,
                                   model_op="roundtrip_sequence", compare=_compare_free),
     "roundtrip_annotation": Op("roundtrip_annotation", _impl_roundtrip_annotation, holds=_holds_rt_annotation),
+    # histories and unusual passing (harness/c10_hist.py, HISTORIES.md)
+    "history": c10_hist.HISTORY,
+    "tag_history": c10_hist.TAG_HISTORY,
+    "positional": c10_hist.POSITIONAL,
 }
 
 
@@ -879,6 +884,31 @@ def _defaults_obligation(ctx):
            "theorem defaults_agree : SE.Crowsetta.defaultsAgree = true := by decide\n"
            f"theorem optional_defaults_absent : {lean(bool(consistent))} = true := by decide\n")
     ctx.obligation("keyword_defaults", src, {"op": "defaults", "extracted": {k: repr(v) for k, v in ext.items()}})
+
+
+def _signatures_obligation(ctx):
+    """Tie 1: the positional-or-keyword parameters of the eleven public converters, in order, are the Lean table
+    `SE.Crowsetta.signatures` (parameters appended after the table's and keyword-only ones are free as long as
+    they are optional: they cannot change what a positional call in the table's order binds)"""
+    model = {e["fn"]: e["params"] for e in ctx.model("signatures", {})}
+    ext = c10_hist.signature_table()
+    rows, surplus_ok = [], True
+    for fn, params in model.items():
+        e = ext.get(fn)
+        if e is None:
+            rows.append((fn, []))
+            continue
+        rows.append((fn, e["positional"][:len(params)]))
+        surplus = set(e["positional"][len(params):]) | set(e["kwonly"])
+        surplus_ok = surplus_ok and not (surplus & set(e["required"]))
+
+    def lstr(x):
+        return '"' + x.replace("\\", "\\\\").replace('"', '\\"') + '"'
+    body = ", ".join("(%s, [%s])" % (lstr(fn), ", ".join(lstr(q) for q in ps)) for fn, ps in rows)
+    src = (f"def extractedSignatures : List (String × List String) := [{body}]\n"
+           "theorem signatures_tie : SE.Crowsetta.signatures.map (fun s => (s.fn, s.params)) = extractedSignatures := by decide\n"
+           f"theorem surplus_parameters_optional : {'true' if surplus_ok else 'false'} = true := by decide\n")
+    ctx.obligation("positional_signatures", src, {"op": "positional", "extracted": ext})
 
 
 # ====================================================================== tie 1b: symbolic traces
@@ -1483,6 +1513,205 @@ def gen_rt_annotation(rng, n):
                "raise_time": rng.random() < 0.7, "opts": io, "export_opts": eo}
 
 
+# ====================================================================== histories, positional calls (harness/c10_hist.py)
+OWN_OPTS = [None, None, {"key": "species"}, {"term": TERM_X}, {"fallback": "fb"}, {"term_mapping": [["a", TERM_Y]]},
+            {"key_mapping": [["a", "kk"]], "key": "explicit"}, {"empty_labels": ["b", "NA"]}]
+H_LABELS = ["a", "a", "b", "__empty__", "1"]
+_SINGLE = ("label_to_tags", "segment", "bbox")
+
+
+def gen_tag_histories(rng, n):
+    for _ in range(n):
+        evs, sizes, used = [], [], []
+        for _ in range(rng.randint(3, 8)):
+            if sizes and rng.random() < 0.45:
+                k = rng.randrange(len(sizes))
+                a = rng.randrange(sizes[k] + 1) if rng.random() < 0.15 else rng.randrange(max(1, sizes[k]))
+                evs.append({"edit": [k, a, rng.choice(["corrected", "a", "b", "", "a~"])]})
+                continue
+            kind = rng.choice(c10_hist.KINDS)
+            labels = [rng.choice(H_LABELS) for _ in range(1 if kind in _SINGLE else rng.randint(0, 4))]
+            opts = rng.choice(used) if used and rng.random() < 0.6 else rng.choice(OWN_OPTS)
+            used.append(opts)
+            evs.append({"call": {"kind": kind, "opts": opts, "labels": labels}})
+            empties = (opts or {}).get("empty_labels") or ["__empty__"]
+            sizes.append(sum(1 for x in labels if x not in empties))
+        yield {"events": evs}
+
+
+def enum_tag_histories():
+    """import a label, the caller corrects the returned tag in place, import the label again - for every ordered
+    pair of converters and every option record of the default tag construction"""
+    for k1, k2 in itertools.product(c10_hist.KINDS, repeat=2):
+        for o in OWN_OPTS[1:]:
+            l1 = ["a"] if k1 in _SINGLE else ["a", "b", "a"]
+            l2 = ["a"] if k2 in _SINGLE else ["b", "a"]
+            yield {"events": [{"call": {"kind": k1, "opts": o, "labels": l1}}, {"edit": [0, 0, "a-corrected"]},
+                              {"call": {"kind": k2, "opts": o, "labels": l2}}, {"edit": [1, len(l2) - 1, "again"]},
+                              {"call": {"kind": k1, "opts": o, "labels": l1}}]}
+
+
+def _hist_cases(rng, defaults):
+    cases = []
+
+    def add(op, inputs, n):
+        inputs = list(inputs)
+        for i in (rng.sample(inputs, n) if len(inputs) > n else inputs):
+            i = dict(i)
+            i.pop("extras", None)
+            cases.append({"op": op, "inp": i})
+    add("label_to_tags", enum_label_to_tags(False), 50)
+    add("label_to_tags", enum_label_to_tags_falsy(), 10)
+    add("label_from_tags", enum_label_from_tags(False), 40)
+    add("label_from_tag", enum_label_from_tag(), 12)
+    add("import_segment", gen_import_segment(rng, 40, POW2_TE, POW2_SR), 40)
+    add("import_bbox", gen_import_bbox(rng, 40, POW2_TE), 40)
+    add("import_sequence", ({"segments": gen_segments(rng, 4, valid=0.97), "rec": {"samplerate": rng.choice(POW2_SR), "te": rng.choice(POW2_TE)},
+                             "adjust": rng.random() < 0.7, "opts": rng.choice(LABEL_OPTS)} for _ in range(30)), 30)
+    add("import_annotation", gen_import_annotation(rng, 30), 30)
+    add("export_segment", gen_export_segment(rng, 2, defaults), 30)
+    add("export_bbox", itertools.islice(gen_export_bbox(rng, 1, defaults), 49), 30)
+    add("export_sequence", gen_export_sequence(rng, 30, defaults), 30)
+    add("export_annotation", gen_export_annotation(rng, 30, defaults), 30)
+    return cases
+
+
+def _hist_variants(x, rng):
+    """neighbours of a step: the same element / annotation / tags with other options, another recording, a flipped
+    switch; the same options with another element; the same label through a sibling converter"""
+    op, b = x["op"], x["inp"]
+    out = []
+
+    def v(op_=None, **ch):
+        nb = {k: w for k, w in b.items()}
+        nb.update(ch)
+        out.append({"op": op_ or op, "inp": nb})
+    if op == "label_to_tags":
+        for o in rng.sample(LABEL_OPTS, 3):
+            v(opts=o)
+        v(opts=None)
+        v(label=rng.choice(LABELS))
+    elif op == "label_from_tag":
+        v(opts={"label_fn": None, "label_mapping": None, "value_only": rng.choice([None, True, False])})
+        v(tag=rng.choice([TAG_A, TAG_B, TAG_C, TAG_D]))
+        v(separator=rng.choice([None, "=", ""]))
+    elif op == "label_from_tags":
+        for o in rng.sample(TAGS_OPTS, 3):
+            v(opts=o)
+        v(tags=rng.choice(TAG_LISTS))
+        v(tags=list(reversed(b["tags"])))
+    elif op.startswith("import_"):
+        for o in rng.sample(LABEL_OPTS, 2):
+            v(opts=o)
+        v(opts=None)
+        v(adjust=not b["adjust"])
+        v(rec={**b["rec"], "te": rng.choice(POW2_TE)})
+        v(rec={**b["rec"], "samplerate": rng.choice(POW2_SR)})
+        if op == "import_segment":
+            v(segment={**b["segment"], "label": rng.choice(LABELS)})
+            v(segment={**gen_segment(rng), "label": b["segment"]["label"]})
+            out.append({"op": "label_to_tags", "inp": {"label": b["segment"]["label"], "opts": b.get("opts")}})
+            out.append({"op": "import_bbox", "inp": {"bbox": {**gen_bbox(rng), "label": b["segment"]["label"]}, "rec": b["rec"],
+                                                     "adjust": b["adjust"], "opts": b.get("opts")}})
+        elif op == "import_bbox":
+            v(bbox={**b["bbox"], "label": rng.choice(LABELS)})
+            v(bbox={**gen_bbox(rng), "label": b["bbox"]["label"]})
+            out.append({"op": "label_to_tags", "inp": {"label": b["bbox"]["label"], "opts": b.get("opts")}})
+            out.append({"op": "import_segment", "inp": {"segment": {**gen_segment(rng, seconds="both"), "label": b["bbox"]["label"]},
+                                                        "rec": b["rec"], "adjust": b["adjust"], "opts": b.get("opts")}})
+        elif op == "import_sequence":
+            v(segments=list(reversed(b["segments"])))
+            v(segments=b["segments"][:-1])
+            v(segments=[{**s_, "label": rng.choice(LABELS)} for s_ in b["segments"]])
+        elif op == "import_annotation":
+            c = b["crow"]
+            v(crow={**c, "bboxes": list(reversed(c["bboxes"])), "seqs": [list(reversed(q)) for q in c["seqs"]]})
+            v(crow={**c, "bboxes": c["bboxes"][:-1], "seqs": [q[:-1] for q in c["seqs"]]})
+    elif op.startswith("export_"):
+        for o in rng.sample(TAGS_OPTS, 2):
+            v(opts=o)
+        v(opts=None)
+        if op in ("export_segment", "export_bbox"):
+            v(sr=rng.choice(EXPORT_SR))
+            v(cast=not b["cast"], default_cast=False, default_switches=False)
+            if op == "export_bbox":
+                v(raise_time=not b["raise_time"], default_switches=False)
+            v(ann={**b["ann"], "tags": rng.choice(TAG_LISTS)})
+            v(ann={**gen_ann(rng, None, none_p=0.1), "tags": b["ann"]["tags"]})
+            if b["ann"]["geometry"] is not None:
+                v(ann={**gen_ann(rng, b["ann"]["geometry"]["type"]), "tags": b["ann"]["tags"]})
+        elif op == "export_sequence":
+            v(sr=rng.choice(EXPORT_SR))
+            v(cast=not b["cast"], default_switches=False)
+            v(ignore=not b["ignore"], default_switches=False)
+            v(anns=list(reversed(b["anns"])))
+            v(anns=b["anns"] + [gen_ann(rng, rng.choice(["TimeInterval", "LineString", None]), none_p=0.2)])
+            v(anns=[{**a, "tags": rng.choice(TAG_LISTS)} for a in b["anns"]])
+        elif op == "export_annotation":
+            v(fmt=rng.choice(["bbox", "seq"]))
+            v(ignore=not b["ignore"], default_switches=False)
+            v(cast=not b["cast"], default_switches=False)
+            v(rec={**b["rec"], "samplerate": rng.choice(EXPORT_SR)})
+            v(anns=list(reversed(b["anns"])))
+            v(anns=b["anns"] + [gen_ann(rng, rng.choice(["BoundingBox", "TimeInterval", "Point", None]), none_p=0.2)])
+    return out
+
+
+def _stage_histories(ctx, defaults):
+    from .. import history
+    rng = ctx.rng
+    cases = _hist_cases(rng, defaults)
+    hs = history.sequences(rng, cases, ctx.budget(420, 3000), variants=_hist_variants, reuse_hows=c10_hist.REUSE, poison=True)
+    for h in hs:
+        for st in h["seq"]:
+            ctx.tally("history:" + st["inp"]["op"].split("_")[0] + ":" + (st.get("reuse") or "fresh") + ("+poison" if st.get("poison") else ""))
+    ctx.run_cases(OPS["history"], hs)
+    c = _count(ctx, "enum:tag_history", enum_tag_histories())
+    ctx.run_cases(OPS["tag_history"], c)
+    ctx.exhaustive["tag histories"] = (f"{len(c)} histories: import a label, correct the returned tag in place, import the label again, "
+                                       "for every ordered pair of the six import routes x every option record of the default tag construction")
+    ctx.run_cases(OPS["tag_history"], _count(ctx, "tag_history:random", gen_tag_histories(rng, ctx.budget(300, 2500))))
+
+
+def gen_positional(rng, defaults, sigs, reps):
+    """every public converter x every split between positional and keyword passing x a few cases each"""
+    pools = {
+        "label_to_tags": lambda: rng.choice([{"label": rng.choice(LABELS), "opts": o} for o in LABEL_OPTS]),
+        "label_from_tag": lambda: rng.choice(list(enum_label_from_tag())),
+        "label_from_tags": lambda: {"tags": rng.choice(TAG_LISTS), "opts": rng.choice(TAGS_OPTS)},
+        "segment_to_annotation": lambda: next(gen_import_segment(rng, 1, POW2_TE, POW2_SR)),
+        "bbox_to_annotation": lambda: next(gen_import_bbox(rng, 1, POW2_TE)),
+        "sequence_to_annotations": lambda: {"segments": gen_segments(rng, 4, valid=0.97), "rec": {"samplerate": rng.choice(POW2_SR), "te": rng.choice(POW2_TE)},
+                                            "adjust": rng.random() < 0.6, "opts": rng.choice(LABEL_OPTS)},
+        "annotation_to_clip_annotation": lambda: next(gen_import_annotation(rng, 1)),
+        "segment_from_annotation": lambda: {"ann": gen_ann(rng, None, none_p=0.05), "sr": rng.choice(EXPORT_SR), "cast": rng.choice([True, False, None]),
+                                            "opts": rng.choice(TAGS_OPTS)},
+        "bbox_from_annotation": lambda: {"ann": gen_ann(rng, None, none_p=0.05), "sr": rng.choice(EXPORT_SR), "cast": rng.random() < 0.5,
+                                         "raise_time": rng.random() < 0.5, "opts": rng.choice(TAGS_OPTS)},
+        "sequence_from_annotations": lambda: {**next(gen_export_sequence(rng, 1, defaults)), "default_switches": False},
+        "annotation_from_clip_annotation": lambda: {**next(gen_export_annotation(rng, 1, defaults)), "default_switches": False},
+    }
+    for fn, order in sigs.items():
+        fill = c10_hist.fill_values(fn, defaults)
+        for k in range(len(order) + 1):
+            for _ in range(reps):
+                base = dict(pools[fn]())
+                base.pop("extras", None)
+                if fn == "segment_from_annotation" and base["cast"] is None:
+                    base["default_cast"] = True
+                    base["cast"] = defaults["seg_cast"]
+                yield {"fn": fn, "k": k, "order": order, "fill": fill, "base": base,
+                       "pass_fill": rng.random() < 0.3, "kw_order": rng.choice(["given", "reversed"])}
+
+
+def _stage_positional(ctx, defaults):
+    sigs = {e["fn"]: e["params"] for e in ctx.model("signatures", {})}
+    c = _count(ctx, "positional:every split", gen_positional(ctx.rng, defaults, sigs, ctx.budget(4, 20)))
+    ctx.run_cases(OPS["positional"], c)
+    ctx.exhaustive["positional calls"] = ("every public converter x every number of leading positional arguments (0 .. all parameters of the "
+                                          "Lean table `signatures`), the other arguments by keyword (in the given or the reversed order)")
+
+
 # ====================================================================== run
 def _count(ctx, key, cases):
     cases = list(cases)
@@ -1572,8 +1801,9 @@ def run(ctx):
     ctx.stage("corpus", ctx.run_corpus, OPS)
     # ties 1 and 1b
     ctx.stage("keyword-defaults", _defaults_obligation, ctx)
+    ctx.stage("positional-signatures", _signatures_obligation, ctx)
     ctx.stage("symbolic-ties", _symbolic_ties, ctx)
-    ctx.stage("discharge", ctx.discharge, ["SoundeventModel.Crowsetta", "SoundeventModel.Tactics"])
+    ctx.stage("discharge", ctx.discharge, ["SoundeventModel.Crowsetta", "SoundeventModel.CrowsettaHist", "SoundeventModel.Tactics"])
     defaults = _model_defaults(ctx)
     # (a) the abstracted option space of both cascades, exhaustively
     ctx.stage("cascades", _stage_cascades, ctx)
@@ -1582,6 +1812,9 @@ def run(ctx):
     ctx.stage("export", _stage_export, ctx, defaults)
     # (c) the round trip through real crowsetta objects: correspondence + monitor
     ctx.stage("roundtrip", _stage_roundtrip, ctx)
+    # (d) histories in one process, the store semantics of returned tags, positional calls (HISTORIES.md)
+    ctx.stage("histories", _stage_histories, ctx, defaults)
+    ctx.stage("positional", _stage_positional, ctx, defaults)
 
 
 def search(ctx, failures):
